@@ -103,6 +103,18 @@ class Check(PropCheck):
             perm = list(names); rng.shuffle(perm); m = dict(zip(names, perm))
             ops = pair_ops(t1, t2, ['rf 1'], []) + ['sel 2', gen.parse_op(gen.to_newick(rename(t1, m))), 'sel 3', gen.parse_op(gen.to_newick(rename(t2, m))), 'sel 2', 'rf 3']
             cases.append(Case('n%d' % j, ops, {'kind': 'rename'}))
+        # in-place renaming after a query (swap two tip names through get_by_name_mut), compared with freshly parsed copies
+        for j in range(60 if self.tier == 'quick' else 1000):
+            n = rng.randint(4, 14)
+            names = ['t%d' % i for i in range(n)]
+            t1 = gen.rand_tree(rng, n, 'ones', internal_names=0.0, names=names)
+            t2 = nni_neighbour(t1, rng); gen.assign_lengths(t2, rng, 'ones')
+            a, b = rng.sample(names, 2)
+            m = dict((x, x) for x in names); m[a], m[b] = b, a
+            ops = pair_ops(t1, t2, ['rf 1', 'cmp_topo 1'], []) + ['sel 0',
+                   'rename_by_name %s %s' % (vf.enc_str(a), vf.enc_str('tmp')), 'rename_by_name %s %s' % (vf.enc_str(b), vf.enc_str(a)),
+                   'rename_by_name %s %s' % (vf.enc_str('tmp'), vf.enc_str(b)), 'rf 1', 'sel 2', gen.parse_op(gen.to_newick(rename(t1, m))), 'rf 1']
+            cases.append(Case('s%d' % j, ops, {'kind': 'swap'}))
         # different leaf sets
         for j in range(40 if self.tier == 'quick' else 400):
             n = rng.randint(3, 12)
@@ -143,6 +155,13 @@ class Check(PropCheck):
             for (nm, a_, b_), (i, l) in vals.items():
                 if l[0] != 'err':
                     bad.append((i, 'trees on different leaf sets were not rejected')); break
+            return bad
+        if kind == 'swap':
+            x = [v for k2, v in vals.items() if k2 == ('rf', 0, 1)]
+            y = vals.get(('rf', 2, 1))
+            # vals keeps the LAST rf 0->1 (after the swap); compare it with the freshly parsed renamed copy
+            if x and y and x[0][1] != y[1]:
+                bad.append((x[0][0], 'RF after renaming tips in place (%s) differs from RF of a freshly parsed renamed copy (%s)' % (x[0][1], y[1])))
             return bad
         if kind == 'rename':
             x = vals.get(('rf', 0, 1)); y = vals.get(('rf', 2, 3))
